@@ -657,7 +657,9 @@ fn case(g: &mut Gen) -> Outcome {
             let below = g.bool();
             let mut p3 = plan.clone();
             p3.params.execution_cost_unit_limit = if below { consumed.saturating_sub(1 + k) } else { consumed + k };
-            if p3.params.execution_cost_unit_limit >= p3.params.execution_cost_unit_loan {
+            // a small transaction stays below the 4M-unit system loan: keep the loan within the limit
+            p3.params.execution_cost_unit_loan = p3.params.execution_cost_unit_loan.min(p3.params.execution_cost_unit_limit);
+            if p3.params.execution_cost_unit_limit > 0 {
                 let run3 = execute(w, &p3);
                 let ctx = format!("re-run with execution_cost_unit_limit {} (ample run consumed {}); {}; outcome {}", p3.params.execution_cost_unit_limit, consumed, describe(&p3), run3.outcome_string());
                 if let Some(pn) = &run3.panic {
